@@ -9,10 +9,14 @@ structure FInv (t : T) : Prop where
   /-- while the connection is up: `_can_send` mirrors the transport's pause flag, and reading
       is paused exactly while writing is -/
   track : t.closing = false → t.canSend = !t.tPaused ∧ t.reading = t.canSend
-  /-- after the loss: `_can_send` is set and nobody is blocked -/
-  released : t.closing = true → t.canSend = true ∧ t.blocked = []
+  /-- after the loss (`connection_lost` delivered): `_can_send` is set and nobody is blocked -/
+  released : t.lost = true → t.canSend = true ∧ t.blocked = []
+  /-- a lost connection is closing -/
+  lostClosing : t.lost = true → t.closing = true
   /-- somebody is blocked only while sending is paused -/
   waiting : t.blocked ≠ [] → t.canSend = false
+  /-- `_can_send` is clear only while the transport has the protocol paused -/
+  clearPaused : t.canSend = false → t.tPaused = true
 
 theorem fixed_pause (t : T) : t.pause.1.fixed = t.fixed := by
   unfold T.pause; split
@@ -43,14 +47,12 @@ theorem finv_pause (t : T) (h : FInv t) : FInv t.pause.1 := by
   · exact h
   · split
     · rename_i hc
-      refine ⟨h.noPausedWrite, ?_, ?_, h.waiting⟩
-      · intro hc'; simp only [] at hc'; rw [hc] at hc'; cases hc'
-      · intro _; exact h.released hc
+      refine ⟨h.noPausedWrite, ?_, h.released, h.lostClosing, h.waiting, fun _ => rfl⟩
+      intro hc'; simp only [] at hc'; rw [hc] at hc'; cases hc'
     · rename_i hc
-      refine ⟨h.noPausedWrite, ?_, ?_, ?_⟩
+      refine ⟨h.noPausedWrite, ?_, ?_, h.lostClosing, fun _ => rfl, fun _ => rfl⟩
       · intro _; simp
-      · intro hc'; simp only [] at hc'; exact absurd hc' hc
-      · intro _; rfl
+      · intro hl; simp only [] at hl; exact absurd (h.lostClosing hl) hc
 
 /-- a write performed while `_can_send` is set keeps the invariant (the transport may re-pause
 from inside it) -/
@@ -64,7 +66,7 @@ theorem finv_doWrite (t : T) (m : Nat) (flag : Bool) (h : FInv t) (hcs : t.canSe
     have htp : t.tPaused = false := by
       have := (h.track hc').1; rw [hcs] at this; simpa using this.symm
     have h1 : FInv (t.written m) := by
-      refine ⟨?_, h.track, h.released, h.waiting⟩
+      refine ⟨?_, h.track, h.released, h.lostClosing, h.waiting, h.clearPaused⟩
       intro w hw
       simp only [T.written, List.mem_append, List.mem_singleton] at hw
       rcases hw with hw | rfl
@@ -89,7 +91,7 @@ theorem finv_wakeAll (ws : List Writer) : ∀ (t : T) (flags : List Bool), t.fix
       have hcond : (t.fixed && !t.canSend) = true := by simp [hcs', hfix]
       simp only [hcond, ↓reduceIte]
       refine ih { t with blocked := t.blocked ++ [w] } flags hfix
-        ⟨h.noPausedWrite, h.track, ?_, fun _ => hcs'⟩
+        ⟨h.noPausedWrite, h.track, ?_, h.lostClosing, fun _ => hcs', h.clearPaused⟩
       intro hc
       have := (h.released hc).1; rw [hcs'] at this; cases this
 
@@ -97,11 +99,25 @@ theorem finv_connectionLost (t : T) (hfix : t.fixed = true) (h : FInv t) :
     FInv t.connectionLost.1 := by
   unfold T.connectionLost
   simp only []
-  exact finv_wakeAll t.blocked { t with closing := true, canSend := true, blocked := [] } [] hfix
-    ⟨h.noPausedWrite, fun hc => (by cases hc), fun _ => ⟨rfl, rfl⟩, fun hb => absurd rfl hb⟩
+  exact finv_wakeAll t.blocked
+    { t with closing := true, lost := true, canSend := true, blocked := [] } [] hfix
+    ⟨h.noPausedWrite, fun hc => (by cases hc), fun _ => ⟨rfl, rfl⟩, fun _ => rfl,
+     fun hb => absurd rfl hb, fun hc => (by cases hc)⟩
 
 theorem finv_now (t : T) (n : Int) (h : FInv t) : FInv { t with now := n } :=
-  ⟨h.noPausedWrite, h.track, h.released, h.waiting⟩
+  ⟨h.noPausedWrite, h.track, h.released, h.lostClosing, h.waiting, h.clearPaused⟩
+
+/-- dropping some blocked senders (their timers fired / they were cancelled) keeps the flags
+invariant -/
+theorem finv_filter (t : T) (p : Writer → Bool) (h : FInv t) :
+    FInv { t with blocked := t.blocked.filter p } := by
+  refine ⟨h.noPausedWrite, h.track, ?_, h.lostClosing, ?_, h.clearPaused⟩
+  · intro hc
+    have := h.released hc
+    exact ⟨this.1, by simp [this.2]⟩
+  · intro hb
+    apply h.waiting
+    intro hnil; apply hb; simp [hnil]
 
 theorem finv_fire (t : T) (limit : Int) (hfix : t.fixed = true) (h : FInv t) :
     FInv (t.fire limit).1 := by
@@ -112,13 +128,8 @@ theorem finv_fire (t : T) (limit : Int) (hfix : t.fixed = true) (h : FInv t) :
     simp only []
     split
     · apply finv_now
-      refine finv_connectionLost (t.atDeadline d) hfix ⟨h.noPausedWrite, h.track, ?_, ?_⟩
-      · intro hc
-        have := h.released hc
-        exact ⟨this.1, by simp [T.atDeadline, this.2]⟩
-      · intro hb
-        apply h.waiting
-        intro hnil; apply hb; simp [T.atDeadline, hnil]
+      exact finv_connectionLost (t.atDeadline d) hfix
+        (finv_now _ d (finv_filter t (·.deadline != d) h))
     · exact finv_now t limit h
 
 theorem finv_step (t : T) (e : Event) (hfix : t.fixed = true) (h : FInv t) : FInv (step t e).1 := by
@@ -126,7 +137,8 @@ theorem finv_step (t : T) (e : Event) (hfix : t.fixed = true) (h : FInv t) : FIn
   cases e with
   | send s m flags =>
     simp only []
-    have h0 : FInv (t.use m) := ⟨h.noPausedWrite, h.track, h.released, h.waiting⟩
+    have h0 : FInv (t.use m) :=
+      ⟨h.noPausedWrite, h.track, h.released, h.lostClosing, h.waiting, h.clearPaused⟩
     split
     · exact h
     · split
@@ -134,7 +146,7 @@ theorem finv_step (t : T) (e : Event) (hfix : t.fixed = true) (h : FInv t) : FIn
         exact finv_doWrite _ m _ h0 hcs
       · rename_i hcs
         have hcs' : t.canSend = false := by simpa using hcs
-        refine ⟨h.noPausedWrite, h.track, ?_, fun _ => hcs'⟩
+        refine ⟨h.noPausedWrite, h.track, ?_, h.lostClosing, fun _ => hcs', h.clearPaused⟩
         intro hc
         have := (h.released hc).1; rw [hcs'] at this; cases this
   | pause => exact finv_pause t h
@@ -147,25 +159,34 @@ theorem finv_step (t : T) (e : Event) (hfix : t.fixed = true) (h : FInv t) : FIn
       split
       · rename_i hcs
         -- only possible on a closing transport
-        refine ⟨h.noPausedWrite, ?_, h.released, h.waiting⟩
-        intro hc
-        have := (h.track hc).1
-        rw [hcs, htp'] at this; cases this
-      · rename_i hcs
-        have hcl : t.closing = false := by
-          cases hc : t.closing with
-          | false => rfl
-          | true => exact absurd (h.released hc).1 hcs
-        exact finv_wakeAll t.blocked t.resumed flags hfix
+        refine ⟨h.noPausedWrite, ?_, h.released, h.lostClosing, h.waiting, ?_⟩
+        · intro hc
+          have := (h.track hc).1
+          rw [hcs, htp'] at this; cases this
+        · intro hc; simp only [] at hc; rw [hcs] at hc; cases hc
+      · exact finv_wakeAll t.blocked t.resumed flags hfix
           ⟨h.noPausedWrite, fun _ => (by simp [T.resumed]),
-           fun hc => (by simp only [T.resumed] at hc; rw [hcl] at hc; cases hc),
-           fun hb => absurd rfl hb⟩
+           fun _ => ⟨rfl, rfl⟩, h.lostClosing,
+           fun hb => absurd rfl hb, fun hc => (by cases hc)⟩
   | lost =>
     simp only []
     split
     · exact h
     · exact finv_connectionLost t hfix h
   | advance dt => exact finv_fire t _ hfix h
+  | cancel m =>
+    simp only []
+    split
+    · exact h
+    · exact finv_filter t (·.msg != m) h
+  | gclose pending =>
+    simp only []
+    split
+    · exact h
+    · split
+      · exact ⟨h.noPausedWrite, fun hc => (by cases hc), h.released, fun _ => rfl, h.waiting,
+               h.clearPaused⟩
+      · exact finv_connectionLost t hfix h
 
 theorem fixed_step (t : T) (e : Event) : (step t e).1.fixed = t.fixed := by
   unfold step
@@ -199,6 +220,16 @@ theorem fixed_step (t : T) (e : Event) : (step t e).1.fixed = t.fixed := by
       split
       · unfold T.connectionLost; simp only []; rw [fixed_wakeAll]; rfl
       · rfl
+  | cancel m =>
+    simp only []
+    split <;> rfl
+  | gclose pending =>
+    simp only []
+    split
+    · rfl
+    · split
+      · rfl
+      · unfold T.connectionLost; simp only []; rw [fixed_wakeAll]
 
 theorem finv_run (es : List Event) : ∀ (t : T), t.fixed = true → FInv t → FInv (run t es).1 := by
   induction es with
